@@ -56,6 +56,10 @@ def build_driver(wd):
     return exe
 
 
+def build_driver_pthread_level(wd):
+    return explore.build_pthread_level(wd, "fxp", os.path.join(BINDC, "futex_driver.c"), [os.path.join(REPO, "futex", f) for f in ("futex.c", "map.c", "list.c")])
+
+
 def history_of(r):
     """API-level history of one run, in the trace spec's vocabulary."""
     h = []
@@ -121,14 +125,26 @@ def main():
             # thread primitives the deterministic layer does not provide: no exploration, the real-thread runs below still happen
             exe = None
             stats["exploration_skipped"] = str(e_)[-300:]
+        # the scheduler one level lower (under the pthread functions): the fallback when the macro-level build is not possible, and
+        # always used for a share of the scripts so that both seams stay alive
+        try:
+            exe_p = build_driver_pthread_level(wd)
+        except common.MachineryError as e_:
+            exe_p = None
+            stats["pthread_level_skipped"] = str(e_)[-300:]
+        if exe is None and exe_p is not None:
+            stats.pop("exploration_skipped", None)
+            stats["exploration_seam"] = "pthread functions (the thread macros of this tree are not the ones the macro-level layer knows)"
         histories, meta = [], []
         seen = set()
-        for s in ((SCRIPTS_QUICK if tier == "quick" else SCRIPTS_THOROUGH) if exe else []):
+        scripts_ = SCRIPTS_QUICK if tier == "quick" else SCRIPTS_THOROUGH
+        plan = [(s_, exe) for s_ in scripts_] + [(s_, exe_p) for s_ in scripts_[1::3]] if exe else [(s_, exe_p) for s_ in scripts_]
+        for s, exe_ in [(s_, x_) for s_, x_ in plan if x_]:
             nthr = s.count("|") + 1
             env = {"SCHED_SYNCLOG": "0", "SCHED_PREEMPT": "2" if nthr <= 3 else "1", "ASAN_OPTIONS": "detect_leaks=0:abort_on_error=0"}
-            runs = explore.explore(exe, [s], env=env, jobs=common.NCPU, max_runs=4000 if tier == "quick" else 60000)
+            runs = explore.explore(exe_, [s], env=env, jobs=common.NCPU, max_runs=4000 if tier == "quick" else 60000)
             if tier != "quick" and nthr > 3:
-                runs += explore.explore(exe, [s], env=dict(env, SCHED_PREEMPT="6"), jobs=common.NCPU, rng=rng, sample=3000)
+                runs += explore.explore(exe_, [s], env=dict(env, SCHED_PREEMPT="6"), jobs=common.NCPU, rng=rng, sample=3000)
             for r in runs:
                 stats["schedules"] += 1
                 if r["rc"] != 0 or "AddressSanitizer" in r["stderr"] or r["end"] is None:
